@@ -45,9 +45,9 @@ func Verif_C10_peer_stop() {
 	verifRaceDetect(true)
 	d := 1
 	if verifTier() >= 1 {
-		d = 3
+		d = 2
 	}
-	verifNote("real peer (manager, FSMs, readers, dial goroutine) brought under the base schedule to one of 13 situations (stop racing the whole start-up with an immediately successful dial [2/3 delays], dial pending, dial completing after cancel, OpenSent/OpenConfirm/Established on either direction, both connections in OpenSent, inbound Established with outbound disabled, hold-down, Active after a TCP failure); in the Established situations optionally a goroutine issuing two WriteUpdate calls; then one more remote event is injected WITHOUT waiting (none / the message that is legal progress in that state / FIN; thorough also an unexpected message / a received Cease) and peer.stop() is called: all schedules of the stop against the in-flight processing with at most 1 (quick) / 3 (thorough) delays (sleep-set reduced); happens-before race detection on every memory access of corebgp code; deadlock = violation")
+	verifNote("real peer (manager, FSMs, readers, dial goroutine) brought under the base schedule to one of 13 situations (stop racing the whole start-up with an immediately successful dial [2/3 delays], dial pending, dial completing after cancel, OpenSent/OpenConfirm/Established on either direction, both connections in OpenSent, inbound Established with outbound disabled, hold-down, Active after a TCP failure); in the Established situations optionally a goroutine issuing two WriteUpdate calls; then one more remote event is injected WITHOUT waiting (none / the message that is legal progress in that state / FIN; thorough also an unexpected message / a received Cease) and peer.stop() is called: all schedules of the stop against the in-flight processing with at most 1 (quick) / 2 (thorough) delays (sleep-set reduced); happens-before race detection on every memory access of corebgp code; deadlock = violation")
 	sc := verifChoose("scenario", c10NumScenarios)
 	passive := sc == c10OpenSentIn || sc == c10OpenConfirmIn || sc == c10EstablishedIn
 	e := newPenv(passive)
